@@ -1,9 +1,13 @@
 // C19 harness: runs the real server.chatPrompt (through the add-only overlay export VerifChatPrompt) and the real
 // template.Template.Execute on the conversations given on stdin.
 //
-// case:  {"tmpl": hex template text, "tok": "fields"|"len4", "mllama": bool, "proj": 0 (nil) | 1 (empty, non-nil) | 2 (["vision"]),
-//         "num_ctx": int, "msgs": [{"role": hex, "content": hex, "images": [hex data, ...]}, ...]}
-// reply: {"err": "", "prompt": hex, "images": [{"id": n, "data": hex}], "after": [hex content of every message after the call],
+// case:  {"tmpl": hex template text, "tok": 0 (white-space fields) | k>0 (one token per started group of k bytes),
+//         "mllama": bool, "proj": 0 (nil) | 1 (empty, non-nil) | 2 (["vision"]),
+//         "num_ctx": int, "png": bool (images are {"w","h","c"} descriptions turned into real PNGs; needed for mllama+proj 2),
+//         "msgs": [{"role": hex, "content": hex, "images": [hex data, ...]}, ...]}
+// reply: {"outcome": 0 ok | 1 errTooManyImages | 2 panic | 3 other error, "err": text, "prompt": hex,
+//         "images": [{"id": n, "data": hex, "src": index of the original image (conversation order) with these bytes, -1 if none}],
+//         "after": [hex content of every message after the call],
 //         "cand": [for every k: number of tokens of Execute(system messages of msgs[:k] ++ msgs[k:]), computed here, not by chatPrompt],
 //         "cand_prompt": [hex of these renderings]}
 package main
@@ -11,8 +15,15 @@ package main
 import (
 	"bytes"
 	"context"
+	"encoding/binary"
+	"errors"
+	"image"
+	"image/color"
+	"image/png"
 
 	"github.com/ollama/ollama/api"
+	"github.com/ollama/ollama/llm"
+	"github.com/ollama/ollama/model/models/mllama"
 	"github.com/ollama/ollama/server"
 	"github.com/ollama/ollama/template"
 	"verifharness/hx"
@@ -35,12 +46,29 @@ func tokFields(_ context.Context, s string) ([]int, error) {
 	return toks, nil
 }
 
-// length tokenizer: one token per started group of four bytes
-func tokLen4(_ context.Context, s string) ([]int, error) {
-	return make([]int, (len(s)+3)/4), nil
+// length tokenizer: one token per started group of k bytes
+func tokLen(k int) func(context.Context, string) ([]int, error) {
+	return func(_ context.Context, s string) ([]int, error) {
+		return make([]int, (len(s)+k-1)/k), nil
+	}
 }
 
-func messages(v any) []api.Message {
+func mkPNG(d map[string]any) string {
+	w, h, c := hx.Int(d["w"]), hx.Int(d["h"]), hx.Int(d["c"])
+	img := image.NewRGBA(image.Rect(0, 0, w, h))
+	for y := 0; y < h; y++ {
+		for x := 0; x < w; x++ {
+			img.Set(x, y, color.RGBA{uint8(c), uint8(c >> 8), uint8(c >> 16), 255})
+		}
+	}
+	var buf bytes.Buffer
+	if err := png.Encode(&buf, img); err != nil {
+		panic(err)
+	}
+	return buf.String()
+}
+
+func messages(v any, asPNG bool) []api.Message {
 	l, _ := v.([]any)
 	out := make([]api.Message, 0, len(l))
 	for _, x := range l {
@@ -48,12 +76,30 @@ func messages(v any) []api.Message {
 		msg := api.Message{Role: hx.Unhex(m["role"]), Content: hx.Unhex(m["content"])}
 		if imgs, ok := m["images"].([]any); ok {
 			for _, i := range imgs {
-				msg.Images = append(msg.Images, api.ImageData(hx.Unhex(i)))
+				if asPNG {
+					msg.Images = append(msg.Images, api.ImageData(mkPNG(i.(map[string]any))))
+				} else {
+					msg.Images = append(msg.Images, api.ImageData(hx.Unhex(i)))
+				}
 			}
 		}
 		out = append(out, msg)
 	}
 	return out
+}
+
+// what chatPrompt is expected to store for an image of an mllama model with a projector (the preprocessing itself
+// is not the subject of C19; it is used to recognise which original image an entry of the result came from)
+func preprocessed(b []byte) []byte {
+	data, _, err := mllama.Preprocess(bytes.NewReader(b))
+	if err != nil {
+		return nil
+	}
+	buf := new(bytes.Buffer)
+	if err := binary.Write(buf, binary.LittleEndian, data); err != nil {
+		return nil
+	}
+	return buf.Bytes()
 }
 
 func main() {
@@ -63,9 +109,10 @@ func main() {
 			return map[string]any{"harness_error": "template: " + err.Error()}
 		}
 		tok := tokFields
-		if c["tok"] == "len4" {
-			tok = tokLen4
+		if k := hx.Int(c["tok"]); k > 0 {
+			tok = tokLen(k)
 		}
+		asPNG, _ := c["png"].(bool)
 		m := &server.Model{Template: tmpl}
 		switch hx.Int(c["proj"]) {
 		case 1:
@@ -73,13 +120,14 @@ func main() {
 		case 2:
 			m.ProjectorPaths = []string{"vision"}
 		}
-		if b, _ := c["mllama"].(bool); b {
+		isMllama, _ := c["mllama"].(bool)
+		if isMllama {
 			m.Config.ModelFamilies = []string{"mllama"}
 		}
 		opts := api.Options{Runner: api.Runner{NumCtx: hx.Int(c["num_ctx"])}}
 
 		// candidate prompts, rendered by the real template engine independently of chatPrompt (for the monitor)
-		orig := messages(c["msgs"])
+		orig := messages(c["msgs"], asPNG)
 		cand := []int{}
 		candPrompt := []string{}
 		for k := range orig {
@@ -98,19 +146,55 @@ func main() {
 			cand = append(cand, len(t))
 			candPrompt = append(candPrompt, hx.Hex(b.String()))
 		}
-
-		msgs := messages(c["msgs"])
-		prompt, images, err := server.VerifChatPrompt(context.Background(), m, tok, &opts, msgs, nil)
 		res := map[string]any{"cand": cand, "cand_prompt": candPrompt}
+
+		msgs := messages(c["msgs"], asPNG)
+		var prompt string
+		var images []llm.ImageData
+		if p := hx.Guard(func() any {
+			prompt, images, err = server.VerifChatPrompt(context.Background(), m, tok, &opts, msgs, nil)
+			return nil
+		}); p != nil {
+			res["outcome"] = 2
+			res["err"] = p.(map[string]any)["panic"]
+			return res
+		}
 		if err != nil {
+			res["outcome"] = 3
+			if errors.Is(err, server.VerifErrTooManyImages) {
+				res["outcome"] = 1
+			}
 			res["err"] = err.Error()
 			return res
 		}
+		res["outcome"] = 0
 		res["err"] = ""
 		res["prompt"] = hx.Hex(prompt)
+		// the original images in conversation order (what an entry of the result may have come from)
+		var srcs [][]byte
+		for _, x := range orig {
+			for _, i := range x.Images {
+				if isMllama && len(m.ProjectorPaths) > 0 {
+					srcs = append(srcs, preprocessed(i))
+				} else {
+					srcs = append(srcs, i)
+				}
+			}
+		}
 		imgs := []map[string]any{}
 		for _, i := range images {
-			imgs = append(imgs, map[string]any{"id": i.ID, "data": hx.Hex(string(i.Data))})
+			src := -1
+			for k, s := range srcs {
+				if s != nil && bytes.Equal(s, i.Data) {
+					src = k
+					break
+				}
+			}
+			e := map[string]any{"id": i.ID, "src": src}
+			if len(i.Data) <= 4096 {
+				e["data"] = hx.Hex(string(i.Data))
+			}
+			imgs = append(imgs, e)
 		}
 		res["images"] = imgs
 		after := []string{}
